@@ -51,7 +51,7 @@ structure VarDecl where
 
 structure Store where
   vars : List (String × Nat × Int)        -- name, bits, value
-  arrs : List (String × List Int)         -- arrays of unsigned char
+  arrs : List (String × Nat × List Int)   -- name, element bits (8 or 16), elements
   deriving Repr, Inhabited
 
 inductive Flow where
@@ -74,14 +74,19 @@ def Store.setVar (s : Store) (x : String) (v : Int) : Option Store :=
 
 def Store.getArr (s : Store) (a : String) (i : Int) : Option Int :=
   match s.arrs.find? (·.1 == a) with
-  | some (_, vs) => if 0 ≤ i && i < vs.length then vs[i.toNat]? else none
+  | some (_, _, vs) => if 0 ≤ i && i < vs.length then vs[i.toNat]? else none
   | none => none
+
+def Store.arrBits (s : Store) (a : String) : Nat :=
+  match s.arrs.find? (·.1 == a) with
+  | some (_, b, _) => b
+  | none => 8
 
 def Store.setArr (s : Store) (a : String) (i : Int) (v : Int) : Option Store :=
   match s.arrs.find? (·.1 == a) with
-  | some (_, vs) =>
+  | some (_, b, vs) =>
     if 0 ≤ i && i < vs.length then
-      some { s with arrs := s.arrs.map fun p => if p.1 == a then (p.1, p.2.set i.toNat (v % 256)) else p }
+      some { s with arrs := s.arrs.map fun p => if p.1 == a then (p.1, p.2.1, p.2.2.set i.toNat (v % (2 ^ b))) else p }
     else none
   | none => none
 
@@ -89,7 +94,7 @@ def Store.setArr (s : Store) (a : String) (i : Int) (v : Int) : Option Store :=
 def width (s : Store) : Expr → Nat
   | .num _ => 8
   | .var x => match s.getVar x with | some (b, _) => b | none => 8
-  | .idx _ _ => 8
+  | .idx a _ => s.arrBits a
   | .bin _ a b => max (width s a) (width s b)
   | .neg a | .bnot a => width s a
   | .lnot _ | .cmp _ _ _ | .land _ _ | .lor _ _ => 8
@@ -208,7 +213,7 @@ def store (m : Mode) (fs : Funs) : Nat → Store → Expr → Int → Res Int
        | none => .undef ("unknown variable " ++ x))
     | .idx a i =>
       (match evalE m fs f s i with
-       | .ok iv s1 => (match s1.setArr a iv v with | some s2 => .ok (v % 256) s2 | none => .undef ("index out of range: " ++ a))
+       | .ok iv s1 => (match s1.setArr a iv v with | some s2 => .ok (v % (2 ^ s1.arrBits a)) s2 | none => .undef ("index out of range: " ++ a))
        | r => r)
     | _ => .undef "not an lvalue"
 
